@@ -540,4 +540,76 @@ theorem ovr_chain (tt : String) (n i : Nat) (hi : i + 1 < n) :
   simp only [List.getElem?_map, List.getElem?_range hi, List.getElem?_range (Nat.lt_of_succ_lt hi), Option.map_some]
   simp only [vsimemName, hj, String.append_assoc]
 
+/-! ## GCP geoboxes as writer input -/
+
+/-- `gcp_geobox_never_reaches_gdal`: an array registered by ground control points cannot be written by `write_cog` / `to_cog`:
+the call always ends in an error, GDAL is never called (no dataset, no gcps handed over) — the only things that can have
+happened are the block-size warning and the removal of the destination the caller asked to overwrite -/
+theorem gcp_geobox_never_reaches_gdal (a : WArgs) :
+    (∃ e, (writeCogGcp a).2 = .error e) ∧ ∀ ev ∈ (writeCogGcp a).1, ev = .warnBlock ∨ ∃ p, ev = .unlink p := by
+  unfold writeCogGcp
+  cases hl : layoutOf a.shape a.g with
+  | error e => simp
+  | ok l =>
+    by_cases hb : (a.blocksize.getD 512 % 16 != 0) = true <;>
+    cases hr : resamplingS2rio (a.resampling.getD "nearest") <;>
+    (cases hd : a.dst with
+      | mem => simp [hb, hr, hd]
+      | path p ex => cases ex <;> cases ho : a.overwrite <;> simp [hb, hr, hd, ho])
+
+/-- `gcp_overwrite_removes_destination_cex` (code as it is): with an existing destination and `overwrite=True` the file is removed
+BEFORE the missing `transform` is noticed — the call fails and the old file is gone, nothing written in its place -/
+theorem gcp_overwrite_removes_destination_cex :
+    writeCogGcp { shape := [4, 5], g := some ⟨4, 5⟩, dtype := "uint8", isFloat := false, dst := .path "out.tif" true, overwrite := true } =
+      ([.unlink "out.tif"], .error .attributeError) := by decide
+
+/-- up to the missing attribute a GCP geobox is treated like any other: same layout errors, same overwrite guard, same
+resampling check as `_write_cog` on a linear GeoBox -/
+theorem gcp_same_checks_first (a : WArgs) (e : GErr) (h : (writeCog a).2 = .error e) : (writeCogGcp a).2 = .error e := by
+  unfold writeCog writeCogFrom at h
+  unfold writeCogGcp
+  cases hl : layoutOf a.shape a.g with
+  | error e' => simp [hl] at h ⊢; exact h
+  | ok l =>
+    by_cases hlv : (levelsFor a.levels l.w l.h).length = 0 <;>
+    cases hr : resamplingS2rio (a.resampling.getD "nearest") <;>
+    (cases hd : a.dst with
+      | mem => simp [hl, hlv, hr, hd] at h ⊢ <;> (try exact h)
+      | path p ex => cases ex <;> cases ho : a.overwrite <;> simp [hl, hlv, hr, hd, ho] at h ⊢ <;> (try exact h))
+
+/-! ## named parameters inside `intermediate_compression` -/
+
+/-- without such keys the full binding is `layerArgs` -/
+theorem layer_args_full_eq (cfg : Dict) (ly : Layer) (name : String)
+    (h : ∀ k ∈ namedFirstPassKeys, Dict.get cfg k = none) : layerArgsFull cfg ly name = layerArgs cfg ly name := by
+  have h1 := h "overwrite" (by simp [namedFirstPassKeys])
+  have h2 := h "ovr_blocksize" (by simp [namedFirstPassKeys])
+  have h3 := h "overview_resampling" (by simp [namedFirstPassKeys])
+  have hw : (layerArgs cfg ly name).extra.without namedFirstPassKeys = (layerArgs cfg ly name).extra := by
+    unfold Dict.without
+    rw [List.filter_eq_self]
+    intro p hp
+    simp only [layerArgs, Dict.without, List.mem_filter] at hp
+    by_contra hc
+    have hk : p.1 ∈ namedFirstPassKeys := by simpa using hc
+    have hget := h p.1 hk
+    unfold Dict.get at hget
+    rw [Option.map_eq_none_iff, List.find?_eq_none] at hget
+    exact hget p hp.1 (by simp)
+  unfold layerArgsFull
+  simp only [Dict.getNone, h1, h2, h3, Option.getD_none, hw]
+  rfl
+
+/-- `first_pass_overwrite_is_inert`: an `overwrite` smuggled into the first pass through `intermediate_compression` cannot remove
+anything: the first-pass images live under fresh `/vsimem/` names, which do not exist -/
+theorem first_pass_overwrite_is_inert (cfg : Dict) (ly : Layer) (name q : String) :
+    Ev.unlink q ∉ (writeCogFrom 0 (layerArgsFull cfg ly name)).1 := by
+  intro hm
+  have := (write_cog_unlink_iff (layerArgsFull cfg ly name) q).mp hm
+  simp [layerArgsFull, layerArgs] at this
+
+example : (layerArgsFull [("overwrite", .bool true), ("compress", .str "lzw")] ⟨[2, 2], some ⟨2, 2⟩, "uint8", false, .none⟩ "n").overwrite = true ∧
+    (layerArgsFull [("overwrite", .bool true), ("compress", .str "lzw")] ⟨[2, 2], some ⟨2, 2⟩, "uint8", false, .none⟩ "n").extra =
+      [("compress", .str "lzw")] := by decide
+
 end OdcGeo.C15
